@@ -229,7 +229,7 @@ func runDirected(o *hx.Out, r *hx.Rng, aim map[string]bool, thorough bool) {
 			}
 			for _, variant := range variants {
 				for _, h := range hs {
-					var schema any
+					var schema, base any
 					applied := []string{"ctor:" + c.name, variant}
 					pm := hx.Safely(func() {
 						schema = c.mk()
@@ -247,6 +247,7 @@ func runDirected(o *hx.Out, r *hx.Rng, aim map[string]bool, thorough bool) {
 								applied[1] = "plain"
 							}
 						}
+						base = schema
 						for k, m := range h {
 							if s2, ok := applyStep(schema, step{m, k}, fs[0].dflt, nil); ok {
 								schema = s2
@@ -265,13 +266,15 @@ func runDirected(o *hx.Out, r *hx.Rng, aim map[string]bool, thorough bool) {
 					want := sm.Type().In(0)
 					gt := goTypeOf(schema)
 					for _, in := range directedInputs(fs, want) {
-						obs := callAll(schema, in.v, renderGen)
 						kind := "ill"
 						if in.typed {
 							kind = "gen"
 						}
-						o.Emit(fmt.Sprintf("c09 %s %s %s | %s #%s", kind, tag, strings.Join(applied, " "), in.tok, tag), obs)
+						emitCase(o, kind, tag, applied, base, schema, in.v, in.tok)
 						o.Count("directed:" + tag)
+						o.Count(fmt.Sprintf("directed-history-len:%d", len(applied)-2))
+						o.Count("directed-variant:" + applied[1])
+						o.Count("directed-input:" + inputClass(in.tok))
 						o.Count("gotype:" + gt)
 						o.Count("ctor:" + c.name)
 						if aimed {
@@ -282,4 +285,19 @@ func runDirected(o *hx.Out, r *hx.Rng, aim map[string]bool, thorough bool) {
 			}
 		}
 	}
+}
+
+// inputClass: the class of a directed input, for the distribution printed into the evidence.
+func inputClass(tok string) string {
+	switch {
+	case tok == "nil":
+		return "untyped-nil"
+	case tok == "nil-of-R":
+		return "nil-of-R"
+	case strings.HasPrefix(tok, "nilptr:"):
+		return "typed-nil-pointer"
+	case strings.HasPrefix(tok, "&"):
+		return "pointer-to-value"
+	}
+	return "value"
 }
